@@ -218,7 +218,38 @@ def c04_static(tier, rng):
     else:
         viol.append({"obligation": "C04.reference_chain_not_novel", "inputs": None, "observed": "suppression branch missing",
                      "required": "a path equal to a reference intron chain is not emitted as novel"})
-    return {"obligations": obl, "discharged": dis, "violations": viol, "cases": obl, "exhaustive": True, "bound": "3 sites",
+    # frame of `known_introns`, the set the .nic / .nnic decision reads ("all introns annotated"): inside GraphBasedModelConstructor it is
+    # bound to the annotated introns of the region (gene_info.intron_profiles.features) and to the empty set in __init__, and nothing else
+    # writes or mutates it - a set grown from graph paths would contain substituted (unannotated) introns
+    obl += 1
+    try:
+        import re
+        src = open(front.REPO + "/src/graph_based_model_construction.py").read()
+        tree = ast.parse(src)
+        cls = next(n for n in tree.body if isinstance(n, ast.ClassDef) and n.name == "GraphBasedModelConstructor")
+        writes = []
+        for n in ast.walk(cls):
+            if isinstance(n, (ast.Assign, ast.AugAssign, ast.AnnAssign)):
+                tg = n.targets if isinstance(n, ast.Assign) else [n.target]
+                if any(ast.unparse(t) == "self.known_introns" for t in tg):
+                    writes.append(ast.unparse(n.value) if not isinstance(n, ast.AugAssign) else "aug:" + ast.unparse(n))
+            if isinstance(n, ast.Call) and isinstance(n.func, ast.Attribute) and ast.unparse(n.func.value) == "self.known_introns" \
+                    and n.func.attr in ("add", "update", "discard", "remove", "clear", "pop", "difference_update", "intersection_update", "symmetric_difference_update"):
+                writes.append("mutation:" + ast.unparse(n))
+        pat = re.compile(r"^(frozen)?set\(((self\.)?gene_info)\.intron_profiles\.features\)$")
+        mutated = [w for w in writes if w.startswith("mutation:") or w.startswith("aug:")]
+        unknown = [w for w in writes if w not in mutated and w != "set()" and not pat.match(w)]
+        ok = not mutated and not unknown and any(pat.match(w) for w in writes)
+        undecided = not mutated      # an assignment this rule does not recognise is not a refutation
+        detail = "writes of self.known_introns: %s" % writes
+    except (StopIteration, SyntaxError, OSError) as e:
+        ok, undecided, detail = False, True, repr(e)
+    if ok:
+        dis += 1
+    else:
+        viol.append({"obligation": "C04.known_introns_are_annotated_introns", "inputs": None, "observed": detail,
+                     "required": "known_introns = the annotated introns of the region, never grown from graph paths", "undecided": undecided})
+    return {"obligations": obl, "discharged": dis, "violations": viol, "cases": obl, "exhaustive": True, "bound": "4 sites",
             "samples": [{"site": "IntronPathStorage.fill"}]}
 
 
